@@ -295,7 +295,7 @@ def run(ctx):
         direct += json.loads(p.read_text())
     direct += probes(mocks)
     n_fixed = len(direct)
-    n_direct, n_scen = (500, 30) if ctx.quick else (8000, 400)
+    n_direct, n_scen = (500, 30) if ctx.quick else (4000, 250)
     direct += [gen_direct(r, mocks) for _ in range(n_direct)]
     scen = []
     for p in sorted((ctx.dir / "corpus").glob("scenario*.json")):
